@@ -1033,7 +1033,10 @@ func cpCirculation(st *State, voteRnd basics.Round) uint64 {
 // MaxBalLookback rounds up to base; later rounds come from the replayed blocks).
 func (o *cpObs) compareOnline(s *Sim, c *cpConsumer, R, base basics.Round, how string) bool {
 	p := s.states[R].proto()
-	lo := (base + 1).SubSaturate(basics.Round(p.MaxBalLookback))
+	// the online tracker serves [dbRound+1-MaxBalLookback, latest] (acctonline.go; same window as the C13 oracle);
+	// the consumer may already have flushed beyond base
+	lo := (c.led.LatestTrackerCommitted() + 1).SubSaturate(basics.Round(p.MaxBalLookback))
+	_ = base
 	for r := lo; r <= R; r++ {
 		st := s.states[r]
 		if st == nil {
